@@ -942,6 +942,16 @@ func cli(dir string, limit time.Duration, stdin string, args ...string) cliResul
 	defer cancel()
 	cmd := exec.CommandContext(ctx, egoBin(), args...)
 	cmd.Dir = dir
+	// a test file may start child processes that keep the pipes open: kill
+	// the whole group and do not wait for the pipes for ever
+	cmd.SysProcAttr = &syscall.SysProcAttr{Setpgid: true}
+	cmd.Cancel = func() error {
+		if cmd.Process != nil {
+			_ = syscall.Kill(-cmd.Process.Pid, syscall.SIGKILL)
+		}
+		return nil
+	}
+	cmd.WaitDelay = 3 * time.Second
 	home := filepath.Join(scratch(), "home")
 	cmd.Env = append(os.Environ(), "HOME="+home, "EGO_PATH="+home)
 	var so, se bytes.Buffer
@@ -1071,6 +1081,10 @@ func prefetch(cases []Case) {
 		if err != nil {
 			continue
 		}
+		// only the files whose token stream changes are run at all
+		if _, _, same := describeDiff(c.Src, out); same {
+			continue
+		}
 		jobs = append(jobs, job{c.Src, filepath.Base(c.Name)}, job{out, filepath.Base(c.Name)})
 	}
 	ch := make(chan job)
@@ -1198,8 +1212,11 @@ func missingComments(orig, out []string) []string {
 
 var confirm struct {
 	sync.Mutex
-	n map[string]int
+	n     map[string]int
+	spent time.Duration
 }
+
+const cliBudget = 90 * time.Second
 
 // finding is one violated relation of one case.
 type finding struct {
@@ -1215,6 +1232,10 @@ func (f finding) sig() string { return f.relation + " " + f.where }
 // that the root cause lives in. ctx is contextAt's description, shapes the two
 // differing token shapes ("a->b"), detail an error kind.
 func canonical(ctx, shapes, detail string) string {
+	return strings.TrimSpace(canonical1(ctx, shapes, detail))
+}
+
+func canonical1(ctx, shapes, detail string) string {
 	if shapes == "-->--" {
 		return "unary-minus-twice"
 	}
@@ -1233,9 +1254,15 @@ func canonical(ctx, shapes, detail string) string {
 	return strings.TrimSpace(ctx + " " + detailOrShapes(shapes, detail))
 }
 
+// detailOrShapes keeps of a token difference "a->b" only the token of the
+// original ("at a"); the error kind of a parse error is not part of a
+// signature (one misparse surfaces as several kinds of error).
 func detailOrShapes(shapes, detail string) string {
 	if detail != "" {
-		return "(" + detail + ")"
+		return ""
+	}
+	if i := strings.Index(shapes, "->"); i > 0 {
+		return "at " + shapes[:i]
 	}
 	return shapes
 }
@@ -1299,10 +1326,17 @@ func finish(c Case, out *vkit.Outcome, fs []finding) {
 		confirm.n = map[string]int{}
 	}
 	confirm.n[sig]++
-	first := confirm.n[sig] <= 2
+	// the binary is asked once per signature, and only while the time spent
+	// asking it stays small (a loaded machine must not turn the double check
+	// into the bulk of the run)
+	first := confirm.n[sig] <= 1 && confirm.spent < cliBudget
 	confirm.Unlock()
 	if first && !(pick.relation == "behaviour" && strings.HasPrefix(c.Kind, "corpus")) {
+		t0 := time.Now()
 		n, ok := cliConfirm(c, pick.relation)
+		confirm.Lock()
+		confirm.spent += time.Since(t0)
+		confirm.Unlock()
 		note = "\n" + n
 		if !ok {
 			// the CLI disagrees with the in-process observation: that is a
@@ -1542,17 +1576,33 @@ func locateParseFailure(src string, raw []tok) (int, int) {
 			delta[t.line]++
 			lastOpen[t.line] = i
 		case "{}":
-			// "{" and "}" on different lines are one token too
+			// "{" and "}" on different lines are one token too; it carries the
+			// line of one of the two
 			if !strings.Contains(lines[t.line-1], "{}") {
-				for l := t.line + 1; l <= len(lines); l++ {
-					if strings.HasPrefix(strings.TrimSpace(lines[l-1]), "}") {
-						delta[t.line]++
-						delta[l]--
-						lastOpen[t.line] = i
-						break
+				code := func(l int) string {
+					x := lines[l-1]
+					if k := strings.Index(x, "//"); k >= 0 {
+						x = x[:k]
 					}
-					if strings.TrimSpace(lines[l-1]) != "" && !strings.HasPrefix(strings.TrimSpace(lines[l-1]), "//") {
-						break
+					return strings.TrimSpace(x)
+				}
+				if strings.HasPrefix(code(t.line), "}") {
+					for l := t.line - 1; l >= 1; l-- {
+						if strings.HasSuffix(code(l), "{") {
+							delta[l]++
+							delta[t.line]--
+							lastOpen[l] = i
+							break
+						}
+					}
+				} else {
+					for l := t.line + 1; l <= len(lines); l++ {
+						if strings.HasPrefix(code(l), "}") {
+							delta[t.line]++
+							delta[l]--
+							lastOpen[t.line] = i
+							break
+						}
 					}
 				}
 			}
@@ -1705,7 +1755,7 @@ func classifyLines(raw []tok, from, to int, detail string) string {
 		}
 	}
 	if first < 0 {
-		return "unlocated (" + detail + ")"
+		return "unlocated"
 	}
 	for first < last && isSpecial(raw[first], ";") {
 		first++
@@ -1732,22 +1782,22 @@ func classifyLines(raw []tok, from, to int, detail string) string {
 		if headerHasComposite(raw, first, last) {
 			return "composite-literal-in-control-header"
 		}
-		return kind + " (" + detail + ")"
+		return kind
 	}
 	if kind == "type" {
 		for k := first; k <= last; k++ {
 			if raw[k].s == "struct" || raw[k].s == "interface" {
-				return "struct-type-body (" + detail + ")"
+				return "struct-type-body"
 			}
 		}
 	}
 	// a composite literal that spans lines
 	for k := first; k <= last; k++ {
 		if isSpecial(raw[k], "{") && braceIsComposite(raw, k, false) && k+1 <= last && raw[k+1].line > raw[k].line {
-			return "composite-literal-body (" + detail + ")"
+			return "composite-literal-body"
 		}
 	}
-	return kind + " (" + detail + ")"
+	return kind
 }
 
 // tokenAt finds the raw token at or after (line, col).
@@ -1822,7 +1872,7 @@ func describeTextDiff(f1, f2 string) string {
 		if strings.HasPrefix(tx, "*") || strings.HasPrefix(tx, "/*") || strings.HasPrefix(tx, "//") || strings.Count(before, "/*") > strings.Count(before, "*/") {
 			return "comment-indentation"
 		}
-		return "indentation of " + lineShape(tx)
+		return "indentation"
 	case tx == "" && x != "":
 		// a line of white space only that is gone on the second pass
 		return "whitespace-only-line"
@@ -1837,7 +1887,7 @@ func describeTextDiff(f1, f2 string) string {
 	if !same {
 		return "tokens " + canonical(ctx, shapes, "")
 	}
-	return "layout " + lineShape(tx) + " / " + lineShape(ty)
+	return "layout"
 }
 
 func lineShape(l string) string {
